@@ -122,6 +122,10 @@ fn dispatch_inner(prop: &str, ctx: Ctx, replay: Option<&str>) -> i32 {
             crate::run::start_watchdog(std::time::Duration::from_secs(120), Some("C20"));
             let mut rep = c20::run_frame_level(ctx);
             rep.merge(c20::run_loopback(ctx));
+            crate::run::case_end();
+            if ctx.tier == crate::report::Tier::Thorough && std::env::var("VERIF_SKIP_ASAN").is_err() {
+                asan_step(&mut rep, "C20", ctx.seed);
+            }
             finish(rep, c20::meta(), ctx.tier, ctx.seed, started)
         }
         "C07" => {
@@ -280,6 +284,75 @@ fn miri_step(rep: &mut Report, what: &str) {
                 }
             } else {
                 rep.note(format!("miri step inconclusive (exit {:?}, {:.0} s): {}", o.status.code(), started.elapsed().as_secs_f64(), stderr.lines().last().unwrap_or("")));
+            }
+        }
+    }
+}
+
+
+/// Secondary oracle of the thorough tier: the same monitor binary built with AddressSanitizer
+/// (`-Zsanitizer=address` on the nightly toolchain, own target directory) runs the quick workload of the
+/// property. What it adds: heap errors in the unsafe code of the dependencies (bytes, tokio, the TLS stack's
+/// Rust side) as driven by this crate under hostile input. An ASan report is a violation; oracle alarms of the
+/// slowed-down child are only noted (its real-time parts run ~8x slower); a build problem is a note.
+fn asan_step(rep: &mut Report, prop: &str, seed: u64) {
+    let root = crate::report::verif_root();
+    let harness = root.join("harness");
+    let started = Instant::now();
+    let build = std::process::Command::new("timeout")
+        .arg("1800")
+        .args(["cargo", "+nightly", "build", "--profile", "mon", "--offline", "--bin", "mon", "--target", "x86_64-unknown-linux-gnu"])
+        .current_dir(&harness)
+        .env("RUSTFLAGS", "-Zsanitizer=address -Cforce-frame-pointers=yes")
+        .env("CARGO_TARGET_DIR", harness.join("target").join("asan"))
+        .env("CARGO_NET_OFFLINE", "true")
+        .output();
+    let exe = harness.join("target/asan/x86_64-unknown-linux-gnu/mon/mon");
+    match build {
+        Ok(o) if o.status.success() && exe.exists() => {}
+        Ok(o) => {
+            rep.note(format!("asan step not run: build failed (exit {:?}): {}", o.status.code(), String::from_utf8_lossy(&o.stderr).lines().rev().find(|l| l.starts_with("error")).unwrap_or("")));
+            return;
+        }
+        Err(e) => {
+            rep.note(format!("asan step not run: {e}"));
+            return;
+        }
+    }
+    // a root of its own so that the child's evidence and replays do not overwrite this run's
+    let scratch = std::env::temp_dir().join(format!("verif-asan-{}-{prop}", std::process::id()));
+    let _ = std::fs::remove_dir_all(&scratch);
+    let _ = std::fs::create_dir_all(&scratch);
+    for f in ["properties.jsonl", "known_findings.json"] {
+        let _ = std::fs::copy(root.join(f), scratch.join(f));
+    }
+    let out = std::process::Command::new("timeout")
+        .arg("2400")
+        .arg(&exe)
+        .args([prop, "quick", "--seed", &seed.to_string()])
+        .current_dir(&scratch)
+        .env("VERIF_ROOT", &scratch)
+        .env("VERIF_SKIP_MIRI", "1")
+        .env("VERIF_WATCHDOG_SCALE", "12")
+        .env("ASAN_OPTIONS", "detect_leaks=0:halt_on_error=1:abort_on_error=0:symbolize=1")
+        .output();
+    let _ = std::fs::remove_dir_all(&scratch);
+    match out {
+        Err(e) => rep.note(format!("asan step not run: {e}")),
+        Ok(o) => {
+            let stdout = String::from_utf8_lossy(&o.stdout).to_string();
+            let stderr = String::from_utf8_lossy(&o.stderr).to_string();
+            let summary = stdout.lines().find(|l| l.starts_with(&format!("{prop} quick"))).unwrap_or("").to_string();
+            if stderr.contains("ERROR: AddressSanitizer") {
+                let first = stderr.lines().find(|l| l.contains("ERROR: AddressSanitizer")).unwrap_or("").to_string();
+                let frames: Vec<&str> = stderr.lines().filter(|l| l.trim_start().starts_with('#')).take(12).collect();
+                rep.violate("robustness", "asan", "memory_error", format!("AddressSanitizer report while running the quick workload: {first}"), serde_json::json!({"kind": "asan", "property": prop, "frames": frames}));
+            } else if !summary.is_empty() {
+                rep.add("asan_runs", 1);
+                let alarms = stdout.lines().filter(|l| l.starts_with("VIOLATION")).count();
+                rep.note(format!("AddressSanitizer replay of the quick workload ({:.0} s incl. build): {summary} — no ASan report{}", started.elapsed().as_secs_f64(), if alarms > 0 { format!("; {alarms} oracle alarm(s) of the slowed-down child were NOT taken over (real-time parts run several times slower under ASan; the uninstrumented run above is the verdict)") } else { String::new() }));
+            } else {
+                rep.note(format!("asan step inconclusive (exit {:?}, {:.0} s): {}", o.status.code(), started.elapsed().as_secs_f64(), stderr.lines().last().unwrap_or("")));
             }
         }
     }
